@@ -50,6 +50,13 @@ impl AsMut<G{i}> for F{i} {{ fn as_mut(&mut self) -> &mut G{i} {{ &mut self.g }}
 
 
 DST_TYPES = r'''
+// a collection whose inherent `into_iter` / `iter` visit the elements in REVERSE, unlike its IntoIterator impls
+pub struct Col(pub Vec<u8>);
+impl Col { pub fn into_iter(self) -> std::iter::Rev<std::vec::IntoIter<u8>> { self.0.into_iter().rev() }
+           pub fn iter(&self) -> std::iter::Rev<std::slice::Iter<'_, u8>> { self.0.iter().rev() } }
+impl IntoIterator for Col { type Item = u8; type IntoIter = std::vec::IntoIter<u8>; fn into_iter(self) -> Self::IntoIter { self.0.into_iter() } }
+impl<'a> IntoIterator for &'a Col { type Item = &'a u8; type IntoIter = std::slice::Iter<'a, u8>; fn into_iter(self) -> Self::IntoIter { self.0.iter() } }
+impl<'a> IntoIterator for &'a mut Col { type Item = &'a mut u8; type IntoIter = std::slice::IterMut<'a, u8>; fn into_iter(self) -> Self::IntoIter { self.0.iter_mut() } }
 pub struct Absent;
 macro_rules! impls { ($t:ty : $($tr:tt)+) => {{
     trait Fb { const V: bool = false; } impl<T: ?Sized> Fb for T {}
@@ -316,6 +323,24 @@ def not_forward_modules():
     return out
 
 
+def into_iter_poison_modules():
+    """IntoIterator on a field whose type ALSO has an inherent `into_iter` (visiting the elements in another order): the derive
+    yields what the field's IntoIterator impl yields - an expansion that writes `self.0.into_iter()` reaches the inherent one"""
+    out = []
+    for named in (False, True):
+        k = f"into_iterator_poison|{'n' if named else 't'}"
+        body = "{ #[into_iterator(owned, ref, ref_mut)] pub a: Col, pub b: u8 }" if named else "(#[into_iterator(owned, ref, ref_mut)] pub Col, pub u8);"
+        init = "S { a: Col(vec![1, 2, 3]), b: 0 }" if named else "S(Col(vec![1, 2, 3]), 0)"
+        mod = (f"use super::*;\n#[derive(derive_more::IntoIterator)]\npub struct S{' ' if named else ''}{body}\n"
+               f"pub fn run() {{ let mut rows: Vec<String> = vec![];\n"
+               f"    rows.push(format!(\"owned {{:?}}\", IntoIterator::into_iter({init}).collect::<Vec<u8>>()));\n"
+               f"    {{ let s = {init}; rows.push(format!(\"ref {{:?}}\", IntoIterator::into_iter(&s).copied().collect::<Vec<u8>>())); }}\n"
+               f"    {{ let mut s = {init}; for x in IntoIterator::into_iter(&mut s) {{ *x += 10; }} rows.push(format!(\"mut {{:?}}\", IntoIterator::into_iter(s).collect::<Vec<u8>>())); }}\n"
+               f"    report({json.dumps(k)}, &rows); }}")
+        out.append((k, mod, ["owned [1, 2, 3]", "ref [1, 2, 3]", "mut [11, 12, 13]"]))
+    return out
+
+
 def run(chk, tier, seed, replay):
     chk.assumptions += ["legacy derives: all fields are Vec<u8> (a wrongly selected neighbour still compiles); AsRef/AsMut: instrumented "
                         "F1..F3 whose own AsRef<Self> returns another object, each with a target G_i",
@@ -354,7 +379,7 @@ def run(chk, tier, seed, replay):
                 for k, m, e in dst_modules(c, named, alias):
                     mods.append((k, m))
                     exps[k] = (e, m)
-    for k, m, e in not_forward_modules():
+    for k, m, e in not_forward_modules() + into_iter_poison_modules():
         mods.append((k, m))
         exps[k] = (e, m)
     chk.notes["undocumented_mixed_styles_where_impl_differs"] = undocumented_dev
